@@ -75,7 +75,7 @@ structure ES (l : Option Lbl) (a b : Stream) : Prop where
   side : sideOk l a b
 
 /-- the marker of a `Streams` value -/
-abbrev mk (s : Streams) : InFlightData := s.actions.send.prioritize.inFlightDataFrame
+abbrev marker (s : Streams) : InFlightData := s.actions.send.prioritize.inFlightDataFrame
 
 /-- one elementary step on a `Streams` value -/
 structure El (l : Option Lbl) (s s' : Streams) : Prop where
@@ -84,7 +84,7 @@ structure El (l : Option Lbl) (s s' : Streams) : Prop where
     (∃ b, s'.store.get? k = some b ∧ ES l a b) ∨ (s'.store.get? k = none ∧ l = some (.gone k))
   new : ∀ k b, s.store.get? k = none → s'.store.get? k = some b →
     s.store.nextKey ≤ k ∧ k < s'.store.nextKey ∧ b.pendingSend = [] ∧ b.pendingRecv = []
-  mark : mk s' = markEff l (mk s)
+  mark : marker s' = markEff l (marker s)
   pres : ∀ k f, l = some (.push k f) → (s.store.get? k).isSome = true
 
 /-- which labels a function may produce -/
@@ -159,23 +159,26 @@ theorem Path.allowed {P : Perm} {s0 s : Streams} {tr : List Lbl} (h : Path P s0 
     (a.state.isClosed = true → b.state.isClosed = true) ∧ b.pendingSend = a.pendingSend ∧ b.pendingRecv = a.pendingRecv) :=
   ⟨fun h => ⟨h.key, h.id, h.closed, h.send, h.recv⟩, fun ⟨h1, h2, h3, h4, h5⟩ => ⟨h1, h2, h3, h4, h5, trivial⟩⟩
 
-theorem ES.rfl_none (a : Stream) : ES none a a := ⟨rfl, rfl, id, rfl, rfl, trivial⟩
+theorem ES.rfl_none (a : Stream) : ES none a a := ⟨rfl, rfl, fun h => h, rfl, rfl, trivial⟩
+
+/-- the entry a label names -/
+def Lbl.key? : Lbl → Option Nat
+  | .push j _ | .pop j _ | .cut j _ | .unpop j _ | .rpush j _ | .rpop j _ | .rclear j => some j
+  | _ => none
 
 /-- an entry that a label does not name -/
-theorem ES.other (l : Lbl) (a : Stream) (h : ∀ j, (match l with
-    | .push j _ | .pop j _ | .cut j _ | .unpop j _ | .rpush j _ | .rpop j _ | .rclear j => j = a.key
-    | _ => False) → False) : ES (some l) a a := by
-  refine ⟨rfl, rfl, id, ?_, ?_, ?_⟩
-  · cases l <;> simp only [sendEff] <;> (try rfl) <;> (split <;> [exact absurd ‹_› (fun e => h _ e); rfl])
-  · cases l <;> simp only [recvEff] <;> (try rfl) <;> (split <;> [exact absurd ‹_› (fun e => h _ e); rfl])
-  · cases l <;> simp only [sideOk] <;> (try trivial) <;> (intro e; exact absurd e (fun e => h _ e))
+theorem ES.other (l : Lbl) (a : Stream) (h : l.key? ≠ some a.key) : ES (some l) a a := by
+  refine ⟨rfl, rfl, fun h => h, ?_, ?_, ?_⟩
+  · cases l <;> simp only [sendEff] <;> simp_all [Lbl.key?]
+  · cases l <;> simp only [recvEff] <;> simp_all [Lbl.key?]
+  · cases l <;> simp only [sideOk] <;> simp_all [Lbl.key?]
 
-theorem ES.gone_any (k : Nat) (a : Stream) : ES (some (.gone k)) a a := ⟨rfl, rfl, id, rfl, rfl, trivial⟩
-theorem ES.mark_any (m : InFlightData) (a : Stream) : ES (some (.mark m)) a a := ⟨rfl, rfl, id, rfl, rfl, trivial⟩
+theorem ES.gone_any (k : Nat) (a : Stream) : ES (some (.gone k)) a a := ⟨rfl, rfl, fun h => h, rfl, rfl, trivial⟩
+theorem ES.mark_any (m : InFlightData) (a : Stream) : ES (some (.mark m)) a a := ⟨rfl, rfl, fun h => h, rfl, rfl, trivial⟩
 
 -- ===================================================================== primitive steps
 
-theorem El.of_store_eq {s s' : Streams} (h1 : s'.store = s.store) (h2 : mk s' = mk s) : El none s s' where
+theorem El.of_store_eq {s s' : Streams} (h1 : s'.store = s.store) (h2 : marker s' = marker s) : El none s s' where
   nk := by rw [h1]; exact Nat.le_refl _
   keep := by rw [h1]; exact fun k a h => Or.inl ⟨a, h, ES.rfl_none a⟩
   new := by rw [h1]; intro k b h h'; rw [h] at h'; cases h'
@@ -186,7 +189,7 @@ theorem El.refl_none (s : Streams) : El none s s := .of_store_eq rfl rfl
 
 /-- replacing the entry of `b.key`, the marker untouched; `hl`: the label names no other entry -/
 theorem El.setStream {l : Option Lbl} {s : Streams} {a b : Stream} (ha : s.store.get? b.key = some a) (hab : ES l a b)
-    (hl : ∀ x : Stream, x.key ≠ b.key → ES l x x) (hm : markEff l (mk s) = mk s)
+    (hl : ∀ x : Stream, x.key ≠ b.key → ES l x x) (hm : markEff l (marker s) = marker s)
     (hp : ∀ k f, l = some (.push k f) → k = b.key) : El l s (s.setStream b) where
   nk := Nat.le_refl _
   keep := by
@@ -207,19 +210,28 @@ theorem El.setStream {l : Option Lbl} {s : Streams} {a b : Stream} (ha : s.store
   mark := hm.symm
   pres := by intro k f e; rw [hp k f e, ha]; rfl
 
-theorem setStream_absent {s : Streams} {b : Stream} (h : s.store.get? b.key = none) : s.setStream b = s := by
-  unfold Streams.setStream; rw [Store.set_of_none h]
+theorem Store.set_absent {st : Store} {b : Stream} (h : st.get? b.key = none) : st.set b = st := by
+  unfold Store.set
+  have : ∀ x ∈ st.slab, (if x.key == b.key then b else x) = x := by
+    intro x hx
+    have := List.find?_eq_none.mp h x hx
+    simp at this
+    simp [this]
+  rw [List.map_congr_left this]; simp
 
-theorem panic_mk (s : Streams) (m : String) : mk (s.panic m) = mk s := by
+theorem setStream_absent {s : Streams} {b : Stream} (h : s.store.get? b.key = none) : s.setStream b = s := by
+  unfold Streams.setStream; rw [Store.set_absent h]
+
+theorem panic_marker (s : Streams) (m : String) : marker (s.panic m) = marker s := by
   unfold Streams.panic; split <;> rfl
 
 theorem El.panic (s : Streams) (m : String) : El none s (s.panic m) :=
-  .of_store_eq (by unfold Streams.panic; split <;> rfl) (panic_mk s m)
+  .of_store_eq (by unfold Streams.panic; split <;> rfl) (panic_marker s m)
 
 /-- `modStream` as a (possibly labelled) step -/
 theorem El.modStream {l : Option Lbl} (s : Streams) (k : Nat) (f : Stream → Stream)
     (hf : ∀ a, s.store.get? k = some a → ES l a (f a))
-    (hl : ∀ x : Stream, x.key ≠ k → ES l x x) (hm : markEff l (mk s) = mk s)
+    (hl : ∀ x : Stream, x.key ≠ k → ES l x x) (hm : markEff l (marker s) = marker s)
     (hp : ∀ j g, l = some (.push j g) → j = k) : (s.store.get? k).isSome = true → El l s (s.modStream k f) := by
   intro hs
   obtain ⟨a, ha⟩ := Option.isSome_iff_exists.mp hs
